@@ -731,6 +731,11 @@ class StrategyBase(Node):
 
                 # avoid useless update call
                 if c._issec and not c._needupdate:
+                    # a security that traded back to flat today and was then
+                    # refreshed on its own (e.g. by reading its price) is
+                    # idle already, but what it paid today still counts
+                    if self._bidoffer_set and c.now == date:
+                        bidoffer_paid += c._bidoffer_paid
                     continue
 
                 c.update(date, data, inow)
